@@ -62,7 +62,32 @@ func init() {
 					continue
 				}
 				accepted++
-				consumed := data[:d.Consumed]
+				consumed := append([]byte{}, data[:d.Consumed]...)
+				// decode once more from a buffer the harness owns and overwrite / reuse that buffer before re-encoding: the
+				// decoded message must carry everything it needs (a zero-copy field would re-encode the NEW buffer content)
+				own := append(make([]byte, 0, len(data)+32), data...)
+				ob := bytes.NewBuffer(own)
+				obj := typeCtors[v.Ty]()
+				if c, _ := guard(func() error { return obj.(decoder).Decode(ob) }); c == "ok" {
+					scribble(own)
+					ob.Reset()
+					ob.Write(bytes.Repeat([]byte{0x55}, len(data)))
+					if held := goEncObj(obj, nil, BufMode{}); held.Class == "ok" {
+						want := append([]byte{}, consumed...)
+						got := held.Appended
+						if t.Frame != nil && len(want) == len(got) && len(got) >= hdrSize(t.Frame)+4+t.Frame.CksW {
+							H := hdrSize(t.Frame)
+							copy(want[H:H+4], got[H:H+4])
+							if t.Frame.CksW > 0 {
+								copy(want[len(want)-4:], got[len(got)-4:])
+							}
+						}
+						if !bytes.Equal(want, got) {
+							o.violate(Violation{Property: "C08", Kind: "direct", What: "re-encoding a decoded message after its source buffer was reused does not reproduce the consumed bytes",
+								Case: fmt.Sprintf("dec %d %s", v.Ty, hexOf(data)), Expected: hexOf(consumed), Observed: hexOf(got), Key: "reuse:" + t.QName()})
+						}
+					}
+				}
 				re := corrEnc(o, d.Val, nil, g.mode())
 				if re.Class != "ok" {
 					o.violate(Violation{Property: "C08", Kind: "direct", What: "a decoded message does not re-encode: " + re.Class,
